@@ -1,3 +1,727 @@
 package main
 
-func parseAccLayers(tier string) []Layer { return nil }
+// C12: parsing. Reference grammar + exact literal evaluator, all short strings
+// over a 14-symbol alphabet, structured decimal literals, binary/octal/hex and
+// p-exponent literals, agreement of the other parsing entry points with Parse,
+// differential comparison of the accept set with math/big.
+
+import (
+	"fmt"
+	"math/big"
+	"strconv"
+	"strings"
+
+	"github.com/db47h/decimal"
+)
+
+type lit struct {
+	ok     bool
+	inf    bool
+	neg    bool
+	base   int      // actual mantissa base (0 for ±Inf, as returned by Parse)
+	mant   *big.Int // all mantissa digits as an integer in base `base`
+	fcount int      // number of digits after the radix point
+	ebase  int      // 10 or 2 (10 when there is no exponent)
+	exp    int64
+}
+
+func digitVal(ch byte) int {
+	switch {
+	case '0' <= ch && ch <= '9':
+		return int(ch - '0')
+	case 'a' <= ch && ch <= 'z':
+		return int(ch-'a') + 10
+	case 'A' <= ch && ch <= 'Z':
+		return int(ch-'A') + 10
+	}
+	return 99
+}
+
+// refLit is the reference grammar of Parse (written from its documentation).
+func refLit(s string, base int) lit {
+	bad := lit{}
+	if s == "Inf" || s == "inf" {
+		return lit{ok: true, inf: true}
+	}
+	if len(s) == 4 && (s[0] == '+' || s[0] == '-') && (s[1:] == "Inf" || s[1:] == "inf") {
+		return lit{ok: true, inf: true, neg: s[0] == '-'}
+	}
+	l := lit{ebase: 10}
+	i := 0
+	if i < len(s) && (s[i] == '+' || s[i] == '-') {
+		l.neg = s[i] == '-'
+		i++
+	}
+	b := base
+	sepOK := base == 0
+	afterPrefix := false
+	if base == 0 {
+		b = 10
+		if i+1 < len(s) && s[i] == '0' {
+			switch s[i+1] {
+			case 'b', 'B':
+				b = 2
+			case 'o', 'O':
+				b = 8
+			case 'x', 'X':
+				b = 16
+			}
+			if b != 10 {
+				i += 2
+				afterPrefix = true
+			}
+		}
+	}
+	l.base = b
+	l.mant = new(big.Int)
+	bb := big.NewInt(int64(b))
+	ndig := 0
+	seenDot := false
+	prevDigit := afterPrefix // a '_' is allowed right after a base prefix
+	lastSep := false
+	for i < len(s) {
+		ch := s[i]
+		if ch == '.' && !seenDot {
+			if lastSep {
+				return bad
+			}
+			seenDot = true
+			prevDigit = false
+			i++
+			continue
+		}
+		if ch == '_' && sepOK {
+			if !prevDigit {
+				return bad
+			}
+			prevDigit = false
+			lastSep = true
+			i++
+			continue
+		}
+		d := digitVal(ch)
+		if d >= b {
+			break
+		}
+		l.mant.Mul(l.mant, bb)
+		l.mant.Add(l.mant, big.NewInt(int64(d)))
+		ndig++
+		if seenDot {
+			l.fcount++
+		}
+		prevDigit = true
+		lastSep = false
+		i++
+	}
+	if ndig == 0 || lastSep {
+		return bad
+	}
+	// exponent
+	if i < len(s) && (s[i] == 'e' || s[i] == 'E' || s[i] == 'p' || s[i] == 'P') {
+		if s[i] == 'p' || s[i] == 'P' {
+			l.ebase = 2
+		}
+		i++
+		var digs []byte
+		if i < len(s) && (s[i] == '+' || s[i] == '-') {
+			if s[i] == '-' {
+				digs = append(digs, '-')
+			}
+			i++
+		}
+		n := 0
+		prevD, lastS := false, false
+		for i < len(s) {
+			ch := s[i]
+			if '0' <= ch && ch <= '9' {
+				digs = append(digs, ch)
+				n++
+				prevD, lastS = true, false
+			} else if ch == '_' && sepOK {
+				if !prevD {
+					return bad
+				}
+				prevD, lastS = false, true
+			} else {
+				break
+			}
+			i++
+		}
+		if n == 0 || lastS {
+			return bad
+		}
+		e, err := strconv.ParseInt(string(digs), 10, 64)
+		if err != nil {
+			return bad
+		}
+		l.exp = e
+	}
+	if i != len(s) {
+		return bad
+	}
+	if l.mant.Sign() == 0 {
+		l.ok = true
+		return l
+	}
+	// range of the decimal exponent (binary contributions are applied by multiplication)
+	e10 := ndigits(l.mant)
+	if b == 10 {
+		e10 -= int64(l.fcount)
+	}
+	if l.ebase == 10 {
+		if l.exp > 1<<40 || l.exp < -(1<<40) {
+			return bad
+		}
+		e10 += l.exp
+	}
+	if e10 < MinExp || e10 > MaxExp {
+		return bad
+	}
+	l.ok = true
+	return l
+}
+
+func (l lit) isDecimal() bool { return l.base == 10 && l.ebase == 10 }
+
+// decimalVal returns the exact value of a pure decimal literal.
+func (l lit) decimalVal() Val {
+	if l.mant.Sign() == 0 {
+		return Val{Form: fZero, Neg: l.neg}
+	}
+	return Val{Form: fFinite, Neg: l.neg, Coef: l.mant, E10: l.exp - int64(l.fcount)}
+}
+
+// ratVal returns the exact value of any finite literal (|binary exponent| must be moderate).
+func (l lit) ratVal() *big.Rat {
+	r := new(big.Rat).SetInt(l.mant)
+	mulPow := func(base int64, e int64) {
+		if e == 0 {
+			return
+		}
+		p := new(big.Int).Exp(big.NewInt(base), big.NewInt(abs64(e)), nil)
+		if e > 0 {
+			r.Mul(r, new(big.Rat).SetInt(p))
+		} else {
+			r.Quo(r, new(big.Rat).SetInt(p))
+		}
+	}
+	mulPow(int64(l.base), -int64(l.fcount))
+	mulPow(int64(l.ebase), l.exp)
+	if l.neg {
+		r.Neg(r)
+	}
+	return r
+}
+
+func obsRat(o Obs) *big.Rat {
+	v := o.Val()
+	r := new(big.Rat).SetInt(v.Coef)
+	if v.E10 >= 0 {
+		r.Mul(r, new(big.Rat).SetInt(p10(v.E10)))
+	} else {
+		r.Quo(r, new(big.Rat).SetInt(p10(-v.E10)))
+	}
+	if v.Neg {
+		r.Neg(r)
+	}
+	return r
+}
+
+// ratDigits reports whether r = c×10^e with c of at most prec digits, and returns that value.
+func ratRepresentable(r *big.Rat, prec uint32) (Val, bool) {
+	if r.Sign() == 0 {
+		return Val{Form: fZero}, true
+	}
+	den := new(big.Int).Set(r.Denom())
+	num := new(big.Int).Abs(r.Num())
+	// denominator must be of the form 2^a 5^b
+	a, b5 := 0, 0
+	two, five := big.NewInt(2), big.NewInt(5)
+	m := new(big.Int)
+	for {
+		q, rem := new(big.Int).QuoRem(den, two, m)
+		if rem.Sign() != 0 {
+			break
+		}
+		den = q
+		a++
+	}
+	for {
+		q, rem := new(big.Int).QuoRem(den, five, m)
+		if rem.Sign() != 0 {
+			break
+		}
+		den = q
+		b5++
+	}
+	if den.Cmp(big1) != 0 {
+		return Val{}, false
+	}
+	k := a
+	if b5 > k {
+		k = b5
+	}
+	num.Mul(num, new(big.Int).Exp(two, big.NewInt(int64(k-a)), nil))
+	num.Mul(num, new(big.Int).Exp(five, big.NewInt(int64(k-b5)), nil))
+	v := Val{Form: fFinite, Neg: r.Sign() < 0, Coef: num, E10: -int64(k)}.Norm()
+	return v, ndigits(v.Coef) <= int64(prec)
+}
+
+// judgeParsed checks the receiver after a successful parse of literal l.
+func judgeParsed(c *Ctx, j judge, key func() string, l lit, o Obs, prec uint32, mode uint8) {
+	if msg := Canonical(o); msg != "" {
+		c.Fail(key(), "parsed value not canonical: "+msg)
+		return
+	}
+	ep := prec
+	if ep == 0 {
+		ep = 34
+	}
+	if l.inf {
+		if j == judgeValue && (o.Form != fInf || o.Neg != l.neg) {
+			c.Fail(key(), fmt.Sprintf("got %s, want ±Inf", o))
+		}
+		return
+	}
+	if o.Prec != ep && j == judgeValue {
+		c.Fail(key(), fmt.Sprintf("receiver precision %d, want %d", o.Prec, ep))
+		return
+	}
+	if l.isDecimal() {
+		exp := RoundVal(l.decimalVal(), ep, mode)
+		if exp.Acc != 0 {
+			c.NonTrivial()
+		}
+		ok := matchValue(o, exp)
+		if j == judgeValue {
+			if !ok {
+				c.Fail(key(), cmpValue(o, exp))
+			} else if o.Acc != exp.Acc {
+				c.Fail(key(), fmt.Sprintf("Acc() = %d, want %d (%s)", o.Acc, exp.Acc, o))
+			}
+		} else {
+			want := exp.Acc
+			if !ok {
+				want = int8(CmpVal(o.Val(), l.decimalVal()))
+			}
+			if o.Acc != want {
+				c.Fail(key(), fmt.Sprintf("Acc() = %d but sign(stored − exact) = %d; stored %s", o.Acc, want, o))
+			}
+		}
+		return
+	}
+	if j != judgeValue {
+		return
+	}
+	// binary-flavoured literal: exact when representable, else within one ulp
+	if l.mant.Sign() == 0 {
+		if o.Form != fZero || o.Neg != l.neg {
+			c.Fail(key(), fmt.Sprintf("got %s, want zero", o))
+		}
+		return
+	}
+	r := l.ratVal()
+	if o.Form != fFinite {
+		c.Fail(key(), fmt.Sprintf("got %s, want the finite value %s", o, r.FloatString(40)))
+		return
+	}
+	if v, ok := ratRepresentable(r, ep); ok {
+		if !o.Val().Equal(v) {
+			c.Fail(key(), fmt.Sprintf("representable value not stored exactly: got %s, want %s", o.Val().Norm(), v))
+		}
+		return
+	}
+	c.NonTrivial()
+	d := new(big.Rat).Sub(obsRat(o), r)
+	d.Abs(d)
+	ulpE := int64(o.Exp) - int64(ep)
+	ulp := new(big.Rat)
+	if ulpE >= 0 {
+		ulp.SetInt(p10(ulpE))
+	} else {
+		ulp.SetFrac(big1, p10(-ulpE))
+	}
+	if d.Cmp(ulp) > 0 {
+		c.Fail(key(), fmt.Sprintf("more than one unit in the last place away: got %s, exact %s", o.Val().Norm(), r.FloatString(int(ep)+10)))
+	}
+}
+
+var parseBases = []int{0, 2, 8, 10, 16}
+
+// parseCase runs Parse(s, base) on a receiver (prec, mode) and compares with the reference.
+func parseCase(c *Ctx, j judge, s string, base int, prec uint32, mode uint8, diffBig bool) {
+	if c.Skip() {
+		return
+	}
+	l := refLit(s, base)
+	z := fresh(prec, mode)
+	var d *Dec
+	var b int
+	var err error
+	pv, _ := protect(func() { d, b, err = z.Parse(s, base) })
+	key := func() string { return fmt.Sprintf("Parse(%q, %d) prec=%d mode=%s", s, base, prec, modeName(mode)) }
+	if pv != nil {
+		c.Fail(key(), fmt.Sprintf("panic: %v", pv))
+		return
+	}
+	c.Outcome(fnvStr(uint64(base), s) ^ b2u(err == nil))
+	if j == judgeValue {
+		if !l.ok {
+			if err == nil {
+				c.Fail(key(), fmt.Sprintf("invalid literal accepted: result %s", Observe(z)))
+			} else if d != nil {
+				c.Fail(key(), "error returned together with a non-nil result")
+			}
+		} else {
+			switch {
+			case err != nil:
+				c.Fail(key(), fmt.Sprintf("valid literal rejected: %v", err))
+				return
+			case d != z:
+				c.Fail(key(), "returned *Decimal is not the receiver")
+				return
+			case b != l.base:
+				c.Fail(key(), fmt.Sprintf("detected base %d, want %d", b, l.base))
+				return
+			}
+		}
+		if diffBig {
+			// differential: accept set and base of math/big (small exponents only)
+			_, bb, berr := new(big.Float).Parse(s, base)
+			if (berr == nil) != (err == nil) || (err == nil && bb != b) {
+				c.Fail(key()+" [math/big]", fmt.Sprintf("decimal: err=%v base=%d; big.Float.Parse: err=%v base=%d", err, b, berr, bb))
+			}
+		}
+	}
+	if !l.ok || err != nil {
+		return
+	}
+	judgeParsed(c, j, key, l, Observe(z), prec, mode)
+	if c.WantSample() {
+		c.Sample(fmt.Sprintf("%s -> %s", key(), Observe(z)))
+	}
+}
+
+// otherEntryPoints: SetString, ParseDecimal, UnmarshalText and Sscan must agree with Parse.
+func otherEntryPoints(c *Ctx, s string, prec uint32, mode uint8) {
+	if c.Skip() {
+		return
+	}
+	key := func(n string) string { return fmt.Sprintf("%s(%q) prec=%d mode=%s", n, s, prec, modeName(mode)) }
+	ref := fresh(prec, mode)
+	var rerr error
+	pv, _ := protect(func() { _, _, rerr = ref.Parse(s, 0) })
+	if pv != nil {
+		return // reported by parseCase
+	}
+	ro := Observe(ref)
+	same := func(name string, z *Dec, ok bool) {
+		if ok != (rerr == nil) {
+			c.Fail(key(name), fmt.Sprintf("success=%v but Parse(s,0) err=%v", ok, rerr))
+			return
+		}
+		if !ok {
+			return
+		}
+		o := Observe(z)
+		if o.Form != ro.Form || o.Neg != ro.Neg || o.Prec != ro.Prec || o.Mode != ro.Mode || o.Acc != ro.Acc || (o.Form == fFinite && !o.Val().Equal(ro.Val())) {
+			c.Fail(key(name), fmt.Sprintf("got %s, Parse(s,0) gives %s", o, ro))
+		}
+	}
+	c.NonTrivial()
+	{
+		z := fresh(prec, mode)
+		var r *Dec
+		var ok bool
+		pv, _ := protect(func() { r, ok = z.SetString(s) })
+		if pv != nil {
+			c.Fail(key("SetString"), fmt.Sprintf("panic: %v", pv))
+		} else {
+			if !ok && r != nil {
+				c.Fail(key("SetString"), "failure with a non-nil result")
+			}
+			same("SetString", z, ok)
+		}
+	}
+	{
+		var r *Dec
+		var err error
+		pv, _ := protect(func() { r, _, err = decimal.ParseDecimal(s, 0, uint(prec), decimal.RoundingMode(mode)) })
+		if pv != nil {
+			c.Fail(key("ParseDecimal"), fmt.Sprintf("panic: %v", pv))
+		} else if err == nil && r == nil {
+			c.Fail(key("ParseDecimal"), "nil result without error")
+		} else if err != nil {
+			same("ParseDecimal", nil, false)
+		} else {
+			same("ParseDecimal", r, true)
+		}
+	}
+	{
+		z := fresh(prec, mode)
+		var err error
+		pv, _ := protect(func() { err = z.UnmarshalText([]byte(s)) })
+		if pv != nil {
+			c.Fail(key("UnmarshalText"), fmt.Sprintf("panic: %v", pv))
+		} else {
+			same("UnmarshalText", z, err == nil)
+		}
+	}
+	// Sscan: only for accepted finite literals without characters that fmt treats specially
+	if rerr == nil && ro.Form != fInf && !strings.ContainsAny(s, " \t\n") {
+		z := fresh(prec, mode)
+		var err error
+		var n int
+		pv, _ := protect(func() { n, err = fmt.Sscan(s, z) })
+		if pv != nil {
+			c.Fail(key("Sscan"), fmt.Sprintf("panic: %v", pv))
+		} else if err != nil || n != 1 {
+			c.Fail(key("Sscan"), fmt.Sprintf("n=%d err=%v for a literal Parse accepts", n, err))
+		} else {
+			same("Sscan", z, true)
+		}
+	}
+}
+
+const parseAlphabet = "019._epxbo-+In"
+
+func parseLayers(j judge, tier string) []Layer {
+	thorough := tier == "thorough"
+	var layers []Layer
+	if j == judgeValue {
+		maxLen := 6
+		if thorough {
+			maxLen = 7
+		}
+		A := parseAlphabet
+		layers = append(layers, Layer{
+			Name:   "A1-all-short-strings",
+			Units:  len(A)*len(A) + len(A) + 1,
+			Bounds: fmt.Sprintf("every string of length 0..%d over the 14 symbols %q × bases {0,2,8,10,16}: accept/reject, detected base, value against the reference grammar/evaluator; accept set and base compared with math/big Float.Parse; receiver precision 0 (→34) in ToNearestEven and precision 2 in ToNegativeInf", maxLen, A),
+			Run: func(c *Ctx, u int) {
+				var prefix string
+				switch {
+				case u == 0:
+					prefix = ""
+				case u <= len(A):
+					prefix = string(A[u-1])
+				default:
+					v := u - len(A) - 1
+					prefix = string(A[v/len(A)]) + string(A[v%len(A)])
+				}
+				var rec func(s string)
+				rec = func(s string) {
+					if c.Done() {
+						return
+					}
+					for _, b := range parseBases {
+						parseCase(c, j, s, b, 0, ToNearestEven, true)
+						parseCase(c, j, s, b, 2, ToNegativeInf, false)
+					}
+					if len(prefix) < 2 || len(s) >= maxLen {
+						return
+					}
+					for i := 0; i < len(A); i++ {
+						rec(s + string(A[i]))
+					}
+				}
+				rec(prefix)
+			},
+		})
+		// Inf spellings and their one-edit neighbours
+		var infs []string
+		seen := map[string]bool{}
+		for _, base := range []string{"Inf", "inf", "+Inf", "-Inf", "+inf", "-inf"} {
+			cand := []string{base, strings.ToUpper(base), base + "f", base + " ", " " + base, base + "inity"}
+			for i := 0; i < len(base); i++ {
+				cand = append(cand, base[:i]+base[i+1:])
+				for _, ch := range "iInNfF+-0_." {
+					cand = append(cand, base[:i]+string(ch)+base[i+1:], base[:i]+string(ch)+base[i:])
+				}
+			}
+			for _, s := range cand {
+				if !seen[s] {
+					seen[s] = true
+					infs = append(infs, s)
+				}
+			}
+		}
+		layers = append(layers, Layer{
+			Name:   "A2-inf-spellings",
+			Units:  1,
+			Bounds: fmt.Sprintf("%d strings: the spellings of [+-]Inf/inf and all their one-edit neighbours × 5 bases", len(infs)),
+			Run: func(c *Ctx, u int) {
+				for _, s := range infs {
+					for _, b := range parseBases {
+						parseCase(c, j, s, b, 5, ToZero, true)
+					}
+					otherEntryPoints(c, s, 5, ToZero)
+				}
+			},
+		})
+	}
+	// B: structured decimal literals
+	{
+		var digs []string
+		k := 2
+		J := 20
+		if thorough {
+			k, J = 3, 45
+		}
+		for _, cf := range DCoefs(k) {
+			digs = append(digs, strconv.FormatInt(cf, 10))
+		}
+		digs = append(digs, RunLengthStrings(J)...)
+		precs := []uint32{0, 1, 2, 3, 4, 5, 19, 20, 38}
+		exps := []string{"", "e0", "e1", "e-1", "E+7", "e-40", "e40", "e19", "e-19"}
+		layers = append(layers, Layer{
+			Name:   "B1-structured-decimal",
+			Units:  len(digs),
+			Bounds: fmt.Sprintf("%d digit strings (D(%d) ∪ run-length ties/near-ties/all-nines up to %d digits) × radix point at every position × leading/trailing zeros × optional '_' separators × sign × exponents %v × receiver precision %v × 6 modes; base 0 and base 10", len(digs), k, J+3, exps, precs),
+			Run: func(c *Ctx, u int) {
+				ds := digs[u]
+				for pos := 0; pos <= len(ds); pos++ {
+					var forms []string
+					switch {
+					case pos == 0:
+						forms = []string{"." + ds, "0." + ds, "00.000" + ds}
+					case pos == len(ds):
+						forms = []string{ds, ds + ".", ds + ".000", "0" + ds, ds + "000"}
+					default:
+						forms = []string{ds[:pos] + "." + ds[pos:], "0" + ds[:pos] + "." + ds[pos:] + "0"}
+						if pos > 1 {
+							forms = append(forms, ds[:1]+"_"+ds[1:pos]+"."+ds[pos:])
+						}
+					}
+					for fi, f := range forms {
+						for ei, e := range exps {
+							if c.Done() {
+								return
+							}
+							s := f + e
+							if (fi+ei)%2 == 1 {
+								s = "-" + s
+							} else if (fi+ei)%5 == 0 {
+								s = "+" + s
+							}
+							base := 0
+							if !strings.Contains(s, "_") && (fi+ei)%3 == 0 {
+								base = 10
+							}
+							for _, p := range precs {
+								for _, m := range M6 {
+									parseCase(c, j, s, base, p, m, false)
+								}
+							}
+							if j == judgeValue && ei == 0 {
+								otherEntryPoints(c, s, 3, ToPositiveInf)
+							}
+						}
+					}
+				}
+			},
+		})
+		// exponent extremes
+		bigExps := []string{"2147483646", "2147483647", "2147483648", "2147483649", "-2147483647", "-2147483648", "-2147483649", "-2147483650", "9223372036854775807", "9223372036854775808", "-9223372036854775808", "-9223372036854775809", "99999999999999999999999999999999999999", "-99999999999999999999999999999999999999", "0000000000000000000000000000000000000005", "2_147_483_647", "21474836_46"}
+		mants := []string{"1", "9", "0.1", "0.09", "10", "99.9", "0.0001", "100000", "0", "0.0", "9.99", "123456789012345678901234567890"}
+		layers = append(layers, Layer{
+			Name:   "B2-exponent-extremes",
+			Units:  len(bigExps),
+			Bounds: fmt.Sprintf("mantissas %v × exponents at ±(2^31-2 … 2^31+2), ±2^63 neighbourhood, 38-digit exponents, leading zeros, separators × precision {0,1,2,40} × 6 modes: accepted iff the adjusted exponent fits int32, then correctly rounded incl. overflow to ±Inf by rounding", mants),
+			Run: func(c *Ctx, u int) {
+				for _, mt := range mants {
+					for _, sg := range []string{"", "-"} {
+						for _, el := range []string{"e", "E"} {
+							s := sg + mt + el + bigExps[u]
+							for _, p := range []uint32{0, 1, 2, 40} {
+								for _, m := range M6 {
+									parseCase(c, j, s, 0, p, m, false)
+								}
+							}
+							if !strings.Contains(s, "_") {
+								parseCase(c, j, s, 10, 3, ToZero, false)
+							}
+						}
+					}
+				}
+			},
+		})
+	}
+	if j == judgeValue {
+		// C: binary-flavoured literals
+		type bm struct {
+			prefix string
+			base   int
+			digits string
+		}
+		var ms []bm
+		for _, hx := range []string{"1", "f", "8", "1.8", "f.f", "0.1", "fff", "abc.def", "1.000000000001", "7.ff8", "0.0000000000000000000000001"} {
+			ms = append(ms, bm{"0x", 16, hx})
+		}
+		for _, oc := range []string{"1", "7", "7.7", "0.01", "1234567"} {
+			ms = append(ms, bm{"0o", 8, oc})
+		}
+		for _, bn := range []string{"1", "1.1", "0.0001", "101010101010", "1.11111111111"} {
+			ms = append(ms, bm{"0b", 2, bn})
+		}
+		for _, dc := range []string{"1", "3", "1.5", "0.1", "12345.6789"} {
+			ms = append(ms, bm{"", 10, dc})
+		}
+		var bexps []int64
+		for e := int64(-1100); e <= 1100; e++ {
+			if thorough || e%7 == 0 || abs64(e) < 70 || abs64(abs64(e)-1074) < 4 || abs64(abs64(e)-1023) < 3 {
+				bexps = append(bexps, e)
+			}
+		}
+		layers = append(layers, Layer{
+			Name:   "C1-binary-literals",
+			Units:  len(ms),
+			Bounds: fmt.Sprintf("%d mantissas in base 16/8/2 (prefix form with base 0, bare form with explicit base) and decimal mantissas, with 'p' exponents %d values in -1100..1100 and (base 2/8) 'e' exponents; precision {5,17,34,400,800}; modes Even/ToZero/ToPositiveInf: exact when representable, else within 1 ulp", len(ms), len(bexps)),
+			Run: func(c *Ctx, u int) {
+				m := ms[u]
+				for _, e := range bexps {
+					if c.Done() {
+						return
+					}
+					for _, sg := range []string{"", "-"} {
+						s := sg + m.prefix + m.digits + "p" + strconv.FormatInt(e, 10)
+						for _, p := range []uint32{5, 17, 34, 400, 800} {
+							for _, md := range []uint8{ToNearestEven, ToZero, ToPositiveInf} {
+								parseCase(c, j, s, 0, p, md, false)
+								if m.base != 10 || true {
+									parseCase(c, j, sg+m.digits+"p"+strconv.FormatInt(e, 10), m.base, p, md, false)
+								}
+							}
+						}
+						if m.base == 2 || m.base == 8 {
+							if e%10 == 0 && abs64(e) <= 300 {
+								parseCase(c, j, sg+m.prefix+m.digits+"e"+strconv.FormatInt(e/10, 10), 0, 34, ToNearestEven, false)
+							}
+						}
+					}
+				}
+				// no exponent at all
+				for _, p := range []uint32{0, 5, 60} {
+					parseCase(c, j, m.prefix+m.digits, 0, p, ToNearestEven, true)
+					parseCase(c, j, m.digits, m.base, p, ToNearestEven, true)
+				}
+			},
+		})
+	}
+	return layers
+}
+
+func parseAccLayers(tier string) []Layer { return parseLayers(judgeAcc, tier) }
+
+func init() {
+	register(&Property{
+		ID: "C12", Level: "model_checking",
+		Rule: "a case is (string, base, receiver precision, mode); strings are distinct by construction; non-trivial when the literal is valid and needs rounding (decimal) or is not exactly representable (binary-flavoured); every invalid string also exercises the rejection oracle",
+		Assumptions: []string{
+			"reference grammar written from Parse's documentation (mc/parse.go refLit); accept set and detected base additionally compared with math/big Float.Parse for every short string",
+			"binary exponents are limited to ±1100 (no saturation of either library); decimal exponents up to the int64 limits",
+			"fmt.Sscan is only required to agree on literals that Parse accepts and that contain no blanks",
+		},
+		Layers: func(tier string) []Layer { return parseLayers(judgeValue, tier) },
+	})
+}
